@@ -223,3 +223,29 @@ func sortedIntKeys[V any](m map[int]V) []int {
 	sort.Ints(ks)
 	return ks
 }
+
+// faultSites are the hook sites at which a site-targeted fault may be aimed:
+// the fault lands while a task is parked there, i.e. inside a blocking
+// primitive, inside a (slow) OS call, or just before a task starts or fires.
+var faultSites = []string{
+	"start", "vm.clone", "vm.import", "vm.watcher.fire", "file.watcher.fire", "reg.lock",
+	"chan.send", "chan.send.done", "chan.recv", "chan.recv.done", "chan.next", "chan.next.done", "chan.close",
+	"thread.wait", "thread.wait.done", "time.sleep", "time.sleep.done",
+	"simos.File.Close", "simos.File.Write", "simos.File.Read", "simos.Open", "simos.Create", "simos.WriteFile", "simos.ReadFile", "simos.Std.Write", "simos.Stdout", "simos.Remove", "simos.Rename",
+}
+
+// armSiteFault aims fn at a tape-chosen site and occurrence.
+func armSiteFault(s *sim.Sim, f *sim.Stream, name string, fn func()) string {
+	if f.Chance(2, 3) {
+		// the k-th park at ANY site other than an instruction boundary: lands
+		// on whatever primitives, OS calls, starts and fire points this
+		// particular program actually reaches
+		nth := 1 + f.Intn(12)
+		s.AtSite("*", nth, name, fn)
+		return fmt.Sprintf("*#%d", nth)
+	}
+	site := faultSites[f.Intn(len(faultSites))]
+	nth := 1 + f.Intn(3)
+	s.AtSite(site, nth, name, fn)
+	return fmt.Sprintf("%s#%d", site, nth)
+}
